@@ -174,14 +174,39 @@ def pduStr : ResponsePdu → String
   | .ok r => rspStr r
   | .error e => excStr e
 
+/-- errors with their payloads, in the notation of Rust's derived `Debug` -/
+def errStr : Error → String
+  | .coilValue v => s!"ERR CoilValue({v.toNat})"
+  | .bufferSize => "ERR BufferSize"
+  | .fnCode c => s!"ERR FnCode({c.toNat})"
+  | .exceptionCode c => s!"ERR ExceptionCode({c.toNat})"
+  | .exceptionFnCode c => s!"ERR ExceptionFnCode({c.toNat})"
+  | .crc a b => s!"ERR Crc({a.toNat}, {b.toNat})"
+  | .byteCount c => s!"ERR ByteCount({c.toNat})"
+  | .lengthMismatch a b => s!"ERR LengthMismatch({a}, {b})"
+  | .protocolNotModbus p => s!"ERR ProtocolNotModbus({p.toNat})"
+
+def rawHex (b : Bytes) : String := if b.isEmpty then "-" else hexOf b
+
+/-- the raw bytes of every container in the value (what Rust's derived `Debug` / `==` observe) -/
+def reqRaw : Request → String
+  | .writeMultipleCoils _ c => rawHex c.data
+  | .writeMultipleRegisters _ d | .readWriteMultipleRegisters _ _ _ d | .diagnostics _ d => rawHex d.data
+  | _ => "none"
+
+def rspRaw : Response → String
+  | .readCoils c | .readDiscreteInputs c => rawHex c.data
+  | .readInputRegisters d | .readHoldingRegisters d | .readWriteMultipleRegisters d | .diagnostics d => rawHex d.data
+  | _ => "none"
+
 def resStr {α} (f : α → String) : Res α → String
   | .ok a => "OK " ++ f a
-  | .err _ => "ERR"
+  | .err e => errStr e
   | .panic => "PANIC"
 
 def encStr : Res (Nat × Bytes) → String
   | .ok (n, b) => s!"OK {n} {hexOf b}"
-  | .err _ => "ERR"
+  | .err e => errStr e
   | .panic => "PANIC"
 
 /-! ### value specifications (constructor arguments) -/
@@ -418,7 +443,7 @@ def rspUse (v : Response) : String :=
 def lenStr : Res (Option Nat) → String
   | .ok (some n) => s!"SOME {n}"
   | .ok none => "NONE"
-  | .err _ => "ERR"
+  | .err e => errStr e
   | .panic => "PANIC"
 
 def rtuFrameStr (f : Rtu.Frame) : String := s!"{f.slave} {hexOf f.pdu}"
@@ -427,19 +452,19 @@ def tcpFrameStr (f : Tcp.Frame) : String := s!"{f.transactionId} {f.unitId} {hex
 def optFrameStr {F} (p : F → String) : Res (Option F) → String
   | .ok (some f) => "FRAME " ++ p f
   | .ok none => "NONE"
-  | .err _ => "ERR"
+  | .err e => errStr e
   | .panic => "PANIC"
 
 def scanStr {F} (p : F → String) : Res (Option (F × Loc)) → String
   | .ok (some (f, loc)) => s!"FRAME {p f} {loc.start} {loc.size}"
   | .ok none => "NONE"
-  | .err _ => "ERR"
+  | .err e => errStr e
   | .panic => "PANIC"
 
 def aduStr {α} (p : α → String) : Res (Option α) → String
   | .ok (some a) => "OK " ++ p a
   | .ok none => "NONE"
-  | .err _ => "ERR"
+  | .err e => errStr e
   | .panic => "PANIC"
 
 /-! ### the receive loop (C11) -/
@@ -501,18 +526,18 @@ def gets {α} (idxs : List Nat) (g : Nat → String) (_ : α) : String := ",".in
 def step (toks : List String) : String :=
   match toks with
   | ["reqdec", h] => match parseHex h with
-    | some b => resStr reqStr (Request.decode b) | none => "BADOP"
+    | some b => resStr (fun v => s!"{reqStr v} raw={reqRaw v}") (Request.decode b) | none => "BADOP"
   | ["rspdec", h] => match parseHex h with
-    | some b => resStr rspStr (Response.decode b) | none => "BADOP"
+    | some b => resStr (fun v => s!"{rspStr v} raw={rspRaw v}") (Response.decode b) | none => "BADOP"
   | ["excdec", h] => match parseHex h with
     | some b => resStr excStr (ExceptionResponse.decode b) | none => "BADOP"
   | ["requse", h] => match parseHex h with
     | some b => match Request.decode b with
-      | .ok v => reqUse v | .err _ => "ERR" | .panic => "PANIC"
+      | .ok v => reqUse v | .err e => errStr e | .panic => "PANIC"
     | none => "BADOP"
   | ["rspuse", h] => match parseHex h with
     | some b => match Response.decode b with
-      | .ok v => rspUse v | .err _ => "ERR" | .panic => "PANIC"
+      | .ok v => rspUse v | .err e => errStr e | .panic => "PANIC"
     | none => "BADOP"
   | "reqenc" :: rest => match reqSpec rest with
     | .val v r => withBuf r fun buf => encStr (v.encode buf)
@@ -580,16 +605,16 @@ def step (toks : List String) : String :=
         (unpackCoils b c (List.replicate o true))
     | _, _, _ => "BADOP"
   | ["packedlen", n] => match n.toNat? with
-    | some n => toString (packedCoilsLen n) | none => "BADOP"
+    | some n => (match packedCoilsLenPub n with | .ok v => toString v | _ => "PANIC") | none => "BADOP"
   | ["frombools", bits, t, f, is] => match mkCoils bits t f, parseIdxList is with
     | some r, some idxs =>
       resStr (fun (c : Coils) =>
-        s!"{c.len} {c.packedLen} {b01 c.isEmpty} {coilsStr c} gx={String.ofList (idxs.map fun i => coilChar (c.get i))} it={match c.iter with | .ok l => bitsStr l | _ => "!"} nx={String.ofList (idxs.map fun i => coilChar (c.get i))} n1={String.ofList (idxs.map fun i => coilChar (c.get (i + 1)))}") r
+        s!"{c.len} {c.packedLen} {b01 c.isEmpty} {coilsStr c} gx={String.ofList (idxs.map fun i => coilChar (c.get i))} it={match c.iter with | .ok l => bitsStr l | _ => "!"} nx={String.ofList (idxs.map fun i => coilChar (c.get i))} n1={String.ofList (idxs.map fun i => coilChar (c.get (i + 1)))} raw={rawHex c.data}") r
     | _, _ => "BADOP"
   | ["fromwords", ws, t, f, is] => match mkData ws t f, parseIdxList is with
     | some r, some idxs =>
       resStr (fun (d : Data) =>
-        s!"{d.len} {b01 d.isEmpty} {dataStr d} gx={",".intercalate (idxs.map fun i => wordStr (d.get i))} it={match d.iter with | .ok l => "W" ++ ",".intercalate (l.map hex16) | _ => "!"} nx={",".intercalate (idxs.map fun i => wordStr (d.get i))} n1={",".intercalate (idxs.map fun i => wordStr (d.get (i + 1)))}") r
+        s!"{d.len} {b01 d.isEmpty} {dataStr d} gx={",".intercalate (idxs.map fun i => wordStr (d.get i))} it={match d.iter with | .ok l => "W" ++ ",".intercalate (l.map hex16) | _ => "!"} nx={",".intercalate (idxs.map fun i => wordStr (d.get i))} n1={",".intercalate (idxs.map fun i => wordStr (d.get (i + 1)))} raw={rawHex d.data}") r
     | _, _ => "BADOP"
   | ["fcnew", b] => match parseU8 b with
     | some b => s!"{fcName (FunctionCode.new b)} {(FunctionCode.new b).value}" | none => "BADOP"
